@@ -72,4 +72,7 @@ def apply_over_axes(
     # Initiate wrapper
     a = numpoly.aspolynomial(a)
     out = numpy.apply_over_axes(wrapper_func, a=a.values, axes=axes)
+    if not isinstance(out, numpoly.ndpoly):
+        # no axis given: the function was never applied, the storage comes back
+        out = numpoly.aspolynomial(out, names=a.indeterminants)
     return out
